@@ -6,7 +6,8 @@
    vec_prog, read_off: MpLoadModel.v — the generic serialization layer driving the read scopes for a
    target of a static shape (scalars, string, byte container, sequence containers, classes with string-named
    members loaded in declaration order, std::map<K, V> with K = std::string or an integer type: SMap ks e,
-   std::array<T, N> / T[N]: SArr n e, std::vector<bool>: SVecBool).
+   std::array<T, N> / T[N]: SArr n e, std::vector<bool>: SVecBool, std::tuple<T...>: STuple ss; std::pair is the
+   class with the members "key" and "value").
    has_shape (TObj kvs) (SMap ks e): the keys are of the key type ks and STRICTLY INCREASING (std::less<K>:
    integers by value, strings bytewise as unsigned char, a proper prefix first) — a std::map value.
    map_free s: the shape has no std::map.
@@ -16,7 +17,7 @@
    run_obj_root / run_arr_root / load_obj / load_arr: the scope MODEL on the bytes (MpScopeModel.v).
    doc_ok (abs v): the keys of every class in v are pairwise different (key_eq; for string names: different
    byte strings) — "keys_ok".  bytes b: all < 256.  narrow / widen: the C++ float conversions (any).
-   NOT covered (see the end): MapLoadMode other than Clean, key conversions between text and number, tuples. *)
+   NOT covered (see the end): MapLoadMode other than Clean, key conversions between text and number. *)
 From BS Require Import Base MpSpec MpModel MpLemmas MpReader MpTyped MpSaveModel MpSave
   MpScopeSpec MpScopeModel MpScopeLemmas MpScopeTyped MpScopeProofs MpScopeRefine MpLoadModel MpLoadProofs.
 Local Open Scope N_scope.
@@ -126,6 +127,17 @@ Theorem T_C01_mp_load_fixed_on_model : forall narrow widen o data vs rest n e to
   load_arr narrow widen o data (vec_prog o e vs) = MpScopeModel.LOk toks rest.
 Proof. exact load_fixed_on_model. Qed.
 Print Assumptions T_C01_mp_load_fixed_on_model.
+
+(* a std::tuple at the root (loader of 9e55af6): IsEnd() and one load per component while the array has elements; a
+   shorter document array (Skip policy) leaves the remaining components as they are; the end check; elements left over
+   are passed by the scope's destructor.  An error raised inside a component propagates (M02, fixed) *)
+Theorem T_C01_mp_load_tuple_on_model : forall narrow widen o data vs rest ss toks r,
+  bytes data -> decode data = Some (MArr vs, rest) -> doc_ok (MArr vs) = true ->
+  load_tr narrow widen o (STuple ss) (MArr vs) = (toks, r) -> no_err r ->
+  run_arr_root narrow widen o data (tuple_prog o ss vs) = Done toks rest false /\
+  load_arr narrow widen o data (tuple_prog o ss vs) = MpScopeModel.LOk toks rest.
+Proof. exact load_tuple_on_model. Qed.
+Print Assumptions T_C01_mp_load_tuple_on_model.
 
 (* std::vector<bool> at the root: the program and the answers of a sequence container of bool (the loaded value
    differs: an element that does not load repeats the previous one) *)
@@ -239,6 +251,18 @@ Example T_C01_mp_fixed_example :
 Proof. exact ex_fix_loads. Qed.
 Print Assumptions T_C01_mp_fixed_example.
 
+(* ---- std::tuple<int32_t, std::string, std::array<uint8_t, 2>> ---- *)
+Example T_C01_mp_tuple_example :
+  (exists b, save ex_tup_tree = Some b /\ load_bytes no_narrow id_widen skip_all ex_tup_shape b = LOk ex_tup_tree) /\
+  load_bytes no_narrow id_widen skip_all ex_tup_shape [0x91; 0x07] = LOk (TArr [TInt IS32 7; TStr []; TArr [TInt IU8 0; TInt IU8 0]]) /\
+  load_bytes no_narrow id_widen (mkOpts PThrow PThrow) ex_tup_shape [0x91; 0x07] = LErr (SE EMismatch) /\
+  load_bytes no_narrow id_widen skip_all ex_tup_shape [0x94; 0x07; 0xA1; 0x61; 0x92; 0x01; 0x02; 0x09] =
+    LOk (TArr [TInt IS32 7; TStr [0x61]; TArr [TInt IU8 1; TInt IU8 2]]) /\
+  load_bytes no_narrow id_widen (mkOpts PThrow PThrow) ex_tup_shape [0x94; 0x07; 0xA1; 0x61; 0x92; 0x01; 0x02; 0x09] = LErr (SE EMismatch) /\
+  load_bytes no_narrow id_widen skip_all ex_tup_shape [0x93; 0x07; 0xA1; 0x61; 0x91; 0x01] = LErr SERange.
+Proof. exact (conj ex_tup_roundtrip ex_tup_loads). Qed.
+Print Assumptions T_C01_mp_tuple_example.
+
 (* NOT PROVED / NOT MODELLED:
    - std::map: MapLoadMode::OnlyExistKeys / UpdateKeys (load_tr has no initial target content; into a
      value-initialised map UpdateKeys = Clean and OnlyExistKeys loads nothing); archive keys of another class
@@ -246,10 +270,7 @@ Print Assumptions T_C01_mp_fixed_example.
      convert to the same K (the load into the element try_emplace found): load_tr is total but claims nothing
      there, `modelled` (MpLoadModel.v) delimits it and the correspondence check skips those documents;
      read_off for maps (the keys are not among the tokens); std::unordered_map (iteration order), multimap;
-   - std::tuple / std::pair: SerializeArray(tuple) reads its components without IsEnd() and CATCHES the OutOfRange
-     of a too short array — or of anything nested that raised OutOfRange, e.g. a std::array component with another
-     count — and, under MismatchedTypesPolicy::Skip, goes on: an error in the middle of a load that ends well, which
-     neither the history language nor the error-free theorems can express; enums, validation;
+   - enums, validation;
    - loads that end in an exception: load_tr carries the policies and the error, but the program / transport
      theorems assume an error-free load (as T_C03_mp_refines does);
    - a scalar / string / byte container at the ROOT of the document on the scope model (the root scope's own
